@@ -11,7 +11,7 @@ NOTES = {
  "C03": ("`range_eq_filter`, `rangeNum_eq_filter`, `rangeOpen_eq_filter`, `range_empty`: the pruned scan with per-entry depth equals the filter of the sorted content by the inclusive bounds, for both bound orders, equal bounds, open end, empty tree",
          "bounds carved out by the property (NaN, (-0,+0), empty end with start above the maximum) are not generated; collation trees excluded", "DESIGN §5 C03"),
  "C04": ("`prefix_eq_filter` via `lcp_spec` (the subtree selected by the descent contains every key starting with p), `prefixColl_eq_filter`", "collation Prefix (as repaired) filters the whole tree", "DESIGN §5 C04"),
- "C05": ("`minimum_eq_head`, `maximum_eq_last`, `bottomK_eq_take`, `topK_eq_take_reverse` for every n", "same tie as C02", "DESIGN §5 C05"),
+ "C05": ("`minimum_eq_head`, `maximum_eq_last`, `bottomK_eq_take`, `topK_eq_take_reverse` for every n; `C05Raw.minimum_is_least` / `maximum_is_greatest`: the per-class walks of minimum()/maximum() over raw nodes (children[0], children[childrenLen-1], the node48/node256 scans) reach the least / greatest stored key", "same tie as C02; the real minimum()/maximum() are also followed node by node in the bare-node correspondence", "DESIGN §5 C05, §10.2"),
  "C06": ("`size_eq_card` (conjunct of the invariant preserved by every step), `insert_size`, `delete_size`", "same tie as C01", "DESIGN §5 C06"),
  "C07": ("`encU/encI/encF*_lt_iff`, `dec*_enc*`, `*_length`, `enc*_eq_iff`, `concat_lex` for all widths; float word lemmas at 32/64 bits by bv_decide",
          "bv_decide native axioms for six float word lemmas (disclosed in evidence); IEEE order = declared rank is cross-checked against Go's own comparison operators; 64-bit codecs tied on boundary/adjacent/random samples, 8-bit exhaustively (16-bit exhaustively in the thorough tier, also GOARCH=386)", "DESIGN §5 C07"),
@@ -20,13 +20,13 @@ NOTES = {
  "C09": ("`compound_refines_map` for every injective prefix-free codec; `fixed_then_tail_prefixFree`, `tuple_order`, schema instances from C07", "codecs generated from random field schemas; user codecs outside the contract are not claimed", "DESIGN §5 C09"),
  "C10": ("`find_spec`, `abs_sorted`, `add_spec`, `remove_spec`, `mergeHdr_spec` for all four classes incl. every grow/shrink, SWAR lemmas (`searchNode4_spec`, `insertPosNode4_spec`, lane permutations) on the definitions regenerated from node4.go",
          "bv_decide native axioms for the SWAR word lemmas (disclosed); amd64 assembly and the portable node16 routines tied to the lane-level model by correspondence (structured exhaustive sweep in the thorough tier); node16_arm64.s is neither modelled nor run", "DESIGN §5 C10"),
- "C11": ("`wf_step`, `wf_after_history`, `stored_key_reachable`, `keys_below_share_path`, `thresholds_consistent` on regenerated constants; raw invariant + abstraction checked by the Lean driver on a dump after every operation",
+ "C11": ("`C11RawTree.rtree_refines_map` (a tree of RAW node records – SWAR word, lanes, index, slots – simulates the abstract tree for Search/Insert/Delete and keeps `Raw.inv` on every node), `wf_step`, `wf_after_history`, `stored_key_reachable`, `keys_below_share_path`, `thresholds_consistent` on regenerated constants; raw invariant + abstraction checked by the Lean driver on a dump after every operation",
          "recorded fan-out of a node256 holding 256 children is 0 (known finding D10)", "DESIGN §5 C11"),
  "C12": ("`clear_covers_all_fields`, `pool_sites_match_type`, `put_after_clear_and_unlink` decided on fact tables regenerated from node.go/pool.go; `world_step_independent`, `emptied_is_init`; interleaved multi-tree correspondence",
          "partial: sync.Pool itself and object identity are outside the model; the tie is the per-tree correspondence of interleaved histories", "DESIGN §5 C12"),
  "C13": ("`caller_bytes_unchanged`, `leaf_storage_fresh`, `leaf_storage_content`, `caller_scribble_does_not_reach_leaf` on a slice micro-model of the key prologue; alias leg with canaries and buffer reuse on the real code",
          "partial: Go slice semantics hand-modelled (40 lines)", "DESIGN §5 C13"),
- "C14": ("`*_stop_prefix` (no element after the consumer's false), `topK_restartable`, `bottomK_restartable`, `all_restartable` on the yield-driven fold model with explicit captured state", "same tie as C02", "DESIGN §5 C14"),
+ "C14": ("`*_stop_prefix` (no element after the consumer's false), `topK_restartable`, `bottomK_restartable`, `all_restartable` on the yield-driven fold model with explicit captured state; `C14Passes.passes_write_only_their_own_state` on the regenerated table of writes inside sequence closures (nothing a pass writes survives it)", "same tie as C02", "DESIGN §5 C14"),
  "C15": ("`query_no_state`, `delete_absent_id`, `overwrite_only_value`, `queries_do_not_affect_state`; raw dump equality around every read-only / no-op call on the real code", "purity of the real query code is checked by dump comparison, not proved", "DESIGN §5 C15"),
  "C16": ("`query_closure_writes_nothing_shared`, `only_global_is_pool`, `drf_from_effects` decided on the write-footprint table regenerated from the source; goroutine runs under the race detector compared with the sequential model",
          "partial: schedules, the Go memory model and sync.Pool are not modelled; the footprint extractor is syntactic", "DESIGN §5 C16"),
